@@ -47,7 +47,7 @@ PROPS = {
     "C04": dict(
         extra_modules=["CstModel.Props.Gen"],   # gen_*: bodies transcribed from the source evaluate to the model (tools/rs2lean.py)
         tags=["C04", "C01"],   # the history runs also evaluate the structural oracle: "equal in structure, kinds and text" is part of C04
-        runs=runs([("history", "release")],
+        runs=runs([("history", "release"), ("build", "release")],   # build: abandoned builders / speculative builds with reverts / node-vs-token collisions through one cache
                   [("history", "release"), ("history", "lasso"), ("build", "release")]),
         rule="cases = histories of 2-8 (thorough 2-21) trees built through one long-lived cache and interner, with sub-trees re-used across "
              "trees and earlier sub-trees rebuilt as roots, under hash masks {none, 1, 3, 0} (forced head collisions), plus the real Fx collision "
@@ -122,7 +122,8 @@ PROPS = {
         not_yet_proved=[],
     ),
     "C08": dict(
-        runs=runs([("probe:c08", "rustc"), ("miri:all", "miri")], [("probe:c08", "rustc"), ("miri:all", "miri")]),
+        tags=["C08"],
+        runs=runs([("probe:c08", "rustc"), ("miri:all", "miri"), ("red", "release")], [("probe:c08", "rustc"), ("miri:all", "miri"), ("red", "release")]),   # red: the `kindstamp` probe (a kind type that remembers its thread)
         rule="cases = one rustc probe each (all in one crate compiled once against the current source; diagnostics mapped back by line): every handle type "
              "(node, token, element, resolved node/token/element, element ref) x {Send, Sync} x 8 (thorough 12) data types (thread-safe ones, Rc, Cell, RefCell, raw "
              "pointer holder, Send-only, Sync-only); generic functions over an unconstrained / Send-only / Sync-only / Send+Sync data parameter asserting Send and Sync "
